@@ -556,6 +556,21 @@ C19_Canonical_C ==
 C19_LeafOrderTotal_A == Acting /\ HasObs(Post)
 C19_LeafOrderTotal_C == \A x \in Objects(Post) : Core!StrictTotalOn(DPost.leaves[x])
 
+\* stage_full_snapshot: only array descriptors get a new revision; it is staged and extends the winner its array had
+X_SnapshotStep_A == Op("Snapshot") /\ OkRes /\ Has2
+X_SnapshotStep_C ==
+    /\ Objects(Post) = Objects(pre)
+    /\ Post.items = pre.items
+    /\ \A x \in Objects(pre) :
+          IF IsArr(x)
+          THEN /\ dpre.tree[x] \subseteq DPost.tree[x]
+               /\ Cardinality(NewEntries(x)) <= 1
+               /\ \A e \in NewEntries(x) : e.st /\ e.par = pre.winner[x] /\ ~TIsRes(e.rev)
+          ELSE DPost.tree[x] = dpre.tree[x]
+\* stage(): exporting the staged changes is an observation only
+X_ExportPure_A == Op("Export") /\ OkRes /\ Has2
+X_ExportPure_C == Post = pre
+
 -----------------------------------------------------------------------------
 (* Evaluation: count antecedents, print violations *)
 Chk(k, name, a, c) ==
@@ -572,7 +587,7 @@ Names == <<"C08_Returns", "C05_WinnerRule", "C05_TreeFromBlocks", "C02_AppliedCo
            "C10_NoAlteredContent", "C12_NoDocChange", "C14_Travel", "C14_Retrievable", "C15_CommitCleans",
            "C15_Guards", "C15_Unstage", "C15_ExportReplay", "C19_Canonical", "C19_LeafOrderTotal", "C09_RetryDurable", "D_FrameStorage", "D_FrameMemory",
            "X_UpdateStep", "X_ResolveStep", "X_ResolveRefused", "X_MeldStep", "X_UnstageStep", "X_CommitStep",
-           "C15_StageComplete", "X_ObjStep">>
+           "C15_StageComplete", "X_ObjStep", "X_SnapshotStep", "X_ExportPure">>
 
 AllChecks ==
     /\ Chk(1, Names[1], C08_Returns_A, C08_Returns_C)
@@ -624,6 +639,8 @@ AllChecks ==
     /\ Chk(47, Names[47], X_CommitStep_A, X_CommitStep_C)
     /\ Chk(48, Names[48], C15_StageComplete_A, C15_StageComplete_C)
     /\ Chk(49, Names[49], X_ObjStep_A, X_ObjStep_C)
+    /\ Chk(50, Names[50], X_SnapshotStep_A, X_SnapshotStep_C)
+    /\ Chk(51, Names[51], X_ExportPure_A, X_ExportPure_C)
 
 \* the same predicates as individually named invariants (MeldaTraceStrict.cfg)
 C08_Returns == C08_Returns_A => C08_Returns_C
